@@ -228,7 +228,8 @@ def jobs(tier, seed):
     if tier == "quick":
         js += pair_jobs(PAIR_WLS, 1)
     else:
-        js += pair_jobs(PAIR_WLS, 2) + pair_jobs(PAIR_WLS_MORE, 1)
+        deep = [wl("diamond"), wl("first_of"), wl("mutex2"), wl("choice2")]
+        js += pair_jobs(deep, 2) + pair_jobs([x for x in PAIR_WLS if x not in deep] + PAIR_WLS_MORE, 1)
     js.sort(key=lambda j: (-j["bound"], j["kind"]))
     return js
 
